@@ -9,7 +9,7 @@ The module
 ``Check.finish()`` writes the evidence file, replay files, prints KNOWN-FINDING / VIOLATION lines and
 returns the exit status.
 """
-import os, sys, json, time, random, hashlib, subprocess, re, shutil, math, traceback
+import glob, os, sys, json, time, random, hashlib, subprocess, re, shutil, math, traceback
 from fractions import Fraction
 from concurrent.futures import ThreadPoolExecutor
 
@@ -114,7 +114,19 @@ def sh(cmd, timeout=600, cwd=None, env=None):
 
 
 def ensure_coq_build():
-    """(Re)build the Coq development; a no-op when up to date.  Returns (ok, log)."""
+    """(Re)build the Coq development; a no-op when up to date.  Returns (ok, log).
+    Serialised with a file lock: several checks may be started at the same time."""
+    import fcntl
+    os.makedirs(BUILD, exist_ok=True)
+    with open(os.path.join(BUILD, '.make.lock'), 'w') as lk:
+        fcntl.flock(lk, fcntl.LOCK_EX)
+        try:
+            return _ensure_coq_build()
+        finally:
+            fcntl.flock(lk, fcntl.LOCK_UN)
+
+
+def _ensure_coq_build():
     mk = os.path.join(COQDIR, 'Makefile')
     if not os.path.exists(mk) or os.path.getmtime(mk) < os.path.getmtime(os.path.join(COQDIR, '_CoqProject')):
         rc, out, _ = sh('coq_makefile -f _CoqProject -o Makefile', cwd=COQDIR)
@@ -207,9 +219,16 @@ class Check:
         self.assumptions = []
         self.rule = ''
         self.checker_cmds = []
-        self.bdir = os.path.join(BUILD, pid)
+        # generated .v files of THIS run (concurrent runs of the same property must not share a directory)
+        self.bdir = os.path.join(BUILD, pid, f'run_{os.getpid()}')
         shutil.rmtree(self.bdir, ignore_errors=True)
         os.makedirs(self.bdir, exist_ok=True)
+        for old in glob.glob(os.path.join(BUILD, pid, 'run_*')):        # runs that ended more than 6 h ago
+            try:
+                if old != self.bdir and time.time() - os.path.getmtime(old) > 6 * 3600:
+                    shutil.rmtree(old, ignore_errors=True)
+            except OSError:
+                pass
         self.rdir = os.path.join(BUILD, 'replays', pid)
         os.makedirs(self.rdir, exist_ok=True)
         self.known = load_known_findings().get(pid, [])
@@ -424,8 +443,10 @@ class Check:
             violations=reported + (1 if (broken and reported == 0) else 0),
         )
         os.makedirs(os.path.join(VERIF, 'evidence'), exist_ok=True)
-        with open(os.path.join(VERIF, 'evidence', f'{self.pid}.json'), 'w') as f:
+        evp = os.path.join(VERIF, 'evidence', f'{self.pid}.json')
+        with open(evp + f'.tmp{os.getpid()}', 'w') as f:
             json.dump(ev, f, indent=1, default=str)
+        os.replace(evp + f'.tmp{os.getpid()}', evp)        # atomic: concurrent runs never leave a half-written file
         for ln in lines:
             print(ln)
         nob = len(self.obligations)
